@@ -7,9 +7,12 @@
 // 0x2BE, 0x2CA).  The port under test sits in the same wiring as Teakra::Impl (two ports on one
 // CoreTiming behind an MMIORegion); calls go directly, through MMIO, or through CoreTiming.
 //
-//   --mode repro : instead of random histories, runs the two fixed histories that show the defect of
-//                  Btdmp::Skip for transmit_timer >= transmit_period against the real code and writes
-//                  what it saw (one JSON object per line) to --out.
+//   --mode directed : instead of random histories, the fixed histories around Btdmp::Skip with
+//                     transmit_timer >= transmit_period (period lowered below the running phase, then
+//                     Skip(k) within the reported horizon; period 0), as a trace in the same format.
+//   --mode repro    : the same situations side by side on the real code (Skip(k) against k Ticks from
+//                     equal states), one JSON object per situation, for the evidence file.
+// A call that trips the deliberate assertion or dies ends its history; a fresh object ("New") follows.
 #include "vh.h"
 #include <array>
 #include <csetjmp>
@@ -132,6 +135,94 @@ template <class F> static const char* guarded(F&& call) {
     return out;
 }
 
+enum Op { SEND, FLUSH, ENABLE, CLOCK, PERIOD, TICK, SKIP, RESET };
+
+// one call on the port under test = one trace line.  via: 0 direct, 1 through MMIO (Send, Flush,
+// SetEnable, SetClock) or through CoreTiming (Tick, Skip: CoreTiming clips k to the smallest horizon).
+static const char* call(vh::Out& o, Env& e, Op op, u64 v, int via) {
+    Btdmp& b = e.b();
+    g_cb.clear();
+    const char* out = "ok";
+    o.begin();
+    switch (op) {
+    case SEND:
+        o.str("e", "Send"); o.num("v", (long long)v); o.num("via", via);
+        out = guarded([&] { if (via) e.mmio.Write(e.reg(0x2C6), (u16)v); else b.Send((u16)v); });
+        break;
+    case FLUSH:
+        o.str("e", "Flush"); o.num("v", (long long)v); o.num("via", via);
+        out = guarded([&] { if (via) e.mmio.Write(e.reg(0x2CA), (u16)v); else b.SetTransmitFlush((u16)v); });
+        break;
+    case ENABLE:
+        o.str("e", "SetEnable"); o.num("v", (long long)v); o.num("via", via);
+        out = guarded([&] { if (via) e.mmio.Write(e.reg(0x2BE), (u16)v); else b.SetTransmitEnable((u16)v); });
+        break;
+    case CLOCK:
+        o.str("e", "SetClock"); o.num("v", (long long)v); o.num("via", via);
+        out = guarded([&] { if (via) e.mmio.Write(e.reg(0x2A2), (u16)v); else b.SetTransmitClockConfig((u16)v); });
+        break;
+    case PERIOD: // no register: the class API is the only way
+        o.str("e", "SetPeriod"); o.num("v", (long long)v); o.num("via", 0);
+        out = guarded([&] { b.SetTransmitPeriod((u16)v); });
+        break;
+    case TICK:
+        o.str("e", "Tick"); o.num("via", via);
+        out = guarded([&] { if (via) e.core_timing.Tick(); else b.Tick(); });
+        break;
+    case SKIP: {
+        u64 h = b.GetMaxSkip();
+        u64 done = v < h ? v : h; // what CoreTiming hands down
+        out = guarded([&] { if (via) done = e.core_timing.Skip(v); else b.Skip(v); });
+        o.str("e", "Skip"); o.num("k", (long long)(via ? done : v)); o.num("via", via);
+        if (via) o.num("max", (long long)v);
+        break;
+    }
+    case RESET:
+        o.str("e", "Reset"); o.num("via", 0);
+        out = guarded([&] { b.Reset(); });
+        break;
+    }
+    observe(o, e, out);
+    o.end();
+    return out;
+}
+static void fresh(vh::Out& o, Env& e) {
+    g_cb.clear();
+    o.begin(); o.str("e", "New"); observe(o, e, "ok"); o.end();
+}
+
+// The directed histories around Btdmp::Skip with transmit_timer >= transmit_period, as a trace:
+// the period is lowered below the running phase, then Skip(k) within the reported horizon; period 0.
+static int directed(const vh::Args& a) {
+    vh::Out o;
+    o.open(a.out.c_str());
+    vh::g_fault_out = &o;
+    for (u64 k : {0ull, 3ull}) {
+        Env e(k ? 1 : 0);
+        fresh(o, e);
+        call(o, e, PERIOD, 7, 0);
+        for (int i = 0; i < (k ? 3 : 1); ++i) call(o, e, SEND, 0x11 * (i + 1), i & 1);
+        call(o, e, ENABLE, 1, 1);
+        for (int i = 0; i < 5; ++i) call(o, e, TICK, 0, 0);
+        call(o, e, PERIOD, 3, 0); // phase 5 >= period 3: Tick transmits on the next tick
+        call(o, e, SKIP, k, 0);   // k <= reported horizon
+        for (int i = 0; i < 4; ++i) call(o, e, TICK, 0, 0);
+    }
+    {
+        Env e(0);
+        fresh(o, e);
+        call(o, e, PERIOD, 0, 0);
+        call(o, e, SEND, 0x1234, 0);
+        call(o, e, ENABLE, 1, 0);
+        call(o, e, TICK, 0, 0);  // period 0: a frame on every tick
+        call(o, e, TICK, 0, 0);
+        call(o, e, SKIP, 0, 0);  // divides by zero as pinned
+    }
+    o.close();
+    return 0;
+}
+
+// the same two situations side by side on the real code: Skip(k) against k Ticks from equal states
 static int repro(const vh::Args& a) {
     FILE* f = std::fopen(a.out.c_str(), "w");
     if (!f) return 2;
@@ -184,6 +275,7 @@ int main(int argc, char** argv) {
     std::signal(SIGFPE, on_fpe);
     vh::silence_stdout();
     if (a.mode == "repro") return repro(a);
+    if (a.mode == "directed") return directed(a);
     vh::Out o;
     o.open(a.out.c_str());
     vh::g_fault_out = &o;
@@ -192,50 +284,33 @@ int main(int argc, char** argv) {
     const std::vector<u16> periods = {1, 1, 2, 2, 3, 3, 7, 7, 4096, 4096, 4096, 4, 5, 8, 16, 100, 1000, 4095, 4097,
                                       0x7FFF, 0x8000, 0xFFFE, 0xFFFF, 0};
     const std::vector<u16> enables = {1, 1, 1, 1, 0, 0, 2, 0x8000, 0xFFFF};
-    long emitted = 0;
-    while (emitted < a.n) {
+    while (o.lines < a.n) {
         auto env = std::make_unique<Env>(rng.below(2));
         Env& e = *env;
         Btdmp& b = e.b();
-        const char* out = "ok";
-        auto done_line = [&] { observe(o, e, out); o.end(); ++emitted; };
-        g_cb.clear();
-        o.begin(); o.str("e", "New"); done_line();
+        fresh(o, e);
         int len = 20 + rng.below(200);
         // most histories program the period once before anything else, as a user of the port would
         bool first_period = rng.chance(5, 6);
-        for (int i = 0; i < len && emitted < a.n && std::strcmp(out, "ok") == 0; ++i) {
-            g_cb.clear();
+        const char* out = "ok";
+        // anything but "ok" ends the history: a fresh object comes next
+        for (int i = 0; i < len && o.lines < a.n && std::strcmp(out, "ok") == 0; ++i) {
             unsigned fill = (unsigned)VA::queue(b).size();
             u16 pd = VA::period(b), tm = VA::timer(b);
             bool on = VA::enable(b) != 0;
-            o.begin();
             unsigned r = rng.below(100);
             if (first_period && i == 0) r = 92;
             if (r < 26) {
-                u16 v = rng.chance(1, 6) ? 0 : rng.edge16();
-                bool via = rng.chance(1, 2);
-                o.str("e", "Send"); o.num("v", v); o.num("via", via);
-                out = guarded([&] { if (via) e.mmio.Write(e.reg(0x2C6), v); else b.Send(v); });
+                out = call(o, e, SEND, rng.chance(1, 6) ? 0 : rng.edge16(), rng.chance(1, 2));
             } else if (r < 30) {
-                u16 v = rng.edge16();
-                bool via = rng.chance(1, 2);
-                o.str("e", "Flush"); o.num("v", v); o.num("via", via);
-                out = guarded([&] { if (via) e.mmio.Write(e.reg(0x2CA), v); else b.SetTransmitFlush(v); });
+                out = call(o, e, FLUSH, rng.edge16(), rng.chance(1, 2));
             } else if (r < 38) {
                 u16 v = on ? (rng.chance(1, 2) ? 0 : rng.pick(enables)) : rng.pick(enables);
-                bool via = rng.chance(1, 2);
-                o.str("e", "SetEnable"); o.num("v", v); o.num("via", via);
-                out = guarded([&] { if (via) e.mmio.Write(e.reg(0x2BE), v); else b.SetTransmitEnable(v); });
+                out = call(o, e, ENABLE, v, rng.chance(1, 2));
             } else if (r < 41) {
-                u16 v = rng.edge16();
-                bool via = rng.chance(1, 2);
-                o.str("e", "SetClock"); o.num("v", v); o.num("via", via);
-                out = guarded([&] { if (via) e.mmio.Write(e.reg(0x2A2), v); else b.SetTransmitClockConfig(v); });
+                out = call(o, e, CLOCK, rng.edge16(), rng.chance(1, 2));
             } else if (r < 62) {
-                bool via = rng.chance(1, 3);
-                o.str("e", "Tick"); o.num("via", via);
-                out = guarded([&] { if (via) e.core_timing.Tick(); else b.Tick(); });
+                out = call(o, e, TICK, 0, rng.chance(1, 3));
             } else if (r < 88) {
                 u64 h = b.GetMaxSkip();
                 bool inf = h == CoreTiming::Callbacks::Infinity;
@@ -262,11 +337,7 @@ int main(int argc, char** argv) {
                     else if (c < 19) k = h + 1; // one past the horizon: the deliberate assertion
                     else k = rng.chance(1, 2) ? h + 1 + rng.below(3 * (pd ? pd : 1)) : (h ? rng.next() % (h + 1) : 0);
                 }
-                bool via = rng.chance(1, 4);
-                u64 done = k < h ? k : h; // what CoreTiming hands down
-                out = guarded([&] { if (via) done = e.core_timing.Skip(k); else b.Skip(k); });
-                o.str("e", "Skip"); o.num("k", (long long)(via ? done : k)); o.num("via", via);
-                if (via) o.num("max", (long long)k);
+                out = call(o, e, SKIP, k, rng.chance(1, 4));
             } else if (r < 96) {
                 // period: boundary values; mid-history also just above / at / below the running phase
                 u16 v;
@@ -277,28 +348,15 @@ int main(int argc, char** argv) {
                 else if (c < 8) v = tm ? (u16)(tm - 1) : 1;
                 else if (c < 9) v = tm ? (u16)(1 + rng.below(tm)) : 2;
                 else v = (u16)(1 + rng.below(12));
-                o.str("e", "SetPeriod"); o.num("v", v); o.num("via", 0);
-                out = guarded([&] { b.SetTransmitPeriod(v); });
+                out = call(o, e, PERIOD, v, 0);
             } else if (r < 97) {
-                o.str("e", "Reset"); o.num("via", 0);
-                out = guarded([&] { b.Reset(); });
+                out = call(o, e, RESET, 0, 0);
             } else {
                 // a run of Sends up to 14..18 words attempted: the full boundary (15, 16, dropped 17th)
                 unsigned target = 14 + rng.below(5);
-                for (unsigned n = fill; n + 1 < target && emitted < a.n; ++n) {
-                    u16 w = rng.chance(1, 8) ? 0 : rng.u16();
-                    bool via = rng.chance(1, 2);
-                    o.str("e", "Send"); o.num("v", w); o.num("via", via);
-                    out = guarded([&] { if (via) e.mmio.Write(e.reg(0x2C6), w); else b.Send(w); });
-                    done_line();
-                    g_cb.clear();
-                    o.begin();
-                }
-                u16 w = rng.edge16();
-                o.str("e", "Send"); o.num("v", w); o.num("via", 0);
-                out = guarded([&] { b.Send(w); });
+                for (unsigned n = fill; n < target && o.lines < a.n; ++n)
+                    out = call(o, e, SEND, rng.chance(1, 8) ? 0 : rng.u16(), rng.chance(1, 2));
             }
-            done_line(); // anything but "ok" ends the history: a fresh object comes next
         }
     }
     o.close();
